@@ -291,6 +291,7 @@ type Obligation struct {
 	KnownClass string // non-empty: the input class of a recorded known finding (expected sat)
 	KnownWhat  string
 	Candidate  bool // model found only after dropping quantified assumptions
+	ReturnCover bool // reachability of one return site (a declared number may be dead code)
 }
 
 // InputSym names a symbol of the entry state whose model value is wanted.
